@@ -7,7 +7,7 @@ unset GOTOOLCHAIN GOSUMDB
 mkdir -p .build evidence replays
 ( cd tools/extract && go build -o ../../.build/extract . )
 mkdir -p lean/PdfVerif/Generated
-.build/extract -repo "${VERIF_REPO:-/repo}" -cfg tools/extract/facts.json -out lean/PdfVerif/Generated
+.build/extract -repo "${VERIF_REPO:-/repo}" -cfg tools/extract/facts.d -out lean/PdfVerif/Generated
 ( cd lean && lake build )
 sed "s#@REPO@#${VERIF_REPO:-/repo}#" harness/go.mod.tmpl > harness/go.mod
 cp "${VERIF_REPO:-/repo}/go.sum" harness/go.sum
